@@ -278,7 +278,14 @@ impl Sender {
                 let len = *ctx.ch.pick("op.arg.strlen", &[65535usize, 65534, 65536, 70000, 0, 1]);
                 let in_name = ctx.ch.chance("op.arg.inname", 1, 2);
                 let as_command = ctx.ch.chance("op.arg.ascmd", 1, 2);
-                let long = "n".repeat(len);
+                // ASCII, or multi-byte UTF-8 with the same BYTE length (the limit is in bytes:
+                // 32768 x U+00E9 is 65,536 bytes but only 32,768 characters)
+                let multibyte = ctx.ch.chance("op.arg.multibyte", 1, 3);
+                let long = if multibyte && len >= 2 { format!("{}{}", "\u{e9}".repeat(len / 2), if len % 2 == 1 { "a" } else { "" }) } else { "n".repeat(len) };
+                debug_assert_eq!(long.len(), len);
+                if multibyte {
+                    ctx.probe("a.multibyte_amf0_string");
+                }
                 let value = if in_name {
                     if len == 0 {
                         Amf0Value::Object(std::collections::HashMap::new())
